@@ -475,56 +475,81 @@ CORPUS = [
 ]
 
 
-def generate(ctx: Ctx) -> List[Case]:
+def gen_part(ctx: Ctx, kind: str, n: int, prefix: str) -> List[Case]:
+    """n cases of one kind from ctx.rng (run inline in the quick tier, in worker processes in the thorough tier)"""
     rng = ctx.rng
-    thorough = ctx.thorough
-    n_valid = 6000 if thorough else 500
-    n_mut = 30000 if thorough else 2200
-    reps = 6 if thorough else 1
     cases: List[Case] = []
-    i = 0
 
-    def add(ops, kind, target="", cbm=None):
-        nonlocal i
+    def add(ops, target="", cbm=None):
         rec = {"ops": ops, "target": target, "cb": cbm or rng.choice(["sync", "async"])}
-        cases.append(run_recipe(ctx, rec, f"{kind}{i}"))
-        i += 1
+        cases.append(run_recipe(ctx, rec, f"{prefix}{len(cases)}"))
 
-    for rec in CORPUS:
-        cases.append(run_recipe(ctx, rec, f"corpus{i}"))
-        i += 1
-    # targeted stream: every family at every endpoint, alone and after valid traffic
-    fam = targeted(rng)
-    for _ in range(reps):
-        for tag, data, src in fam:
-            if not in_model(data) and tag != "mx":
-                continue
-            if tag == "mx" and not in_model(data):
-                continue
-            for ep in EPS:
-                s = src or rng.choice(SRCS)
-                pre = seq_prefix(rng, rng.choice([0, 0, 2, 4]))
-                add(pre + [[ep, data.hex(), list(s), list(rng.choice(LOCALS) or []) or None, rng.choice(GAPS), tag]], "t",
-                    target=rng.choice(["", "", "192.168.1.7", "fe80::1%3"]))
-    # valid traffic, sequences of 1..20 datagrams
-    for _ in range(n_valid):
-        n = rng.randrange(1, 21)
-        ops = []
+    if kind == "targeted":
+        # every family at every endpoint, alone and after valid traffic
+        fam = targeted(rng)
         for _ in range(n):
-            d = valid_datagram(rng)
-            ops.append([rng.choice(EPS), d.hex(), list(rng.choice(SRCS)), list(rng.choice(LOCALS) or []) or None, rng.choice(GAPS), "valid"])
-        add(ops, "v", target=rng.choice(["", "", "192.168.1.7", "fe80::1%3"]))
-    # mutated stream inside valid traffic
-    for _ in range(n_mut // 4):
-        ops = seq_prefix(rng, rng.choice([0, 1, 3, 8]))
-        for _ in range(4):
-            d = mutate(rng, valid_datagram(rng))
-            if not in_model(d):
-                continue
-            ops.append([rng.choice(EPS), d.hex(), list(rng.choice(SRCS)), list(rng.choice(LOCALS) or []) or None, rng.choice(GAPS), "mutated"])
-        add(ops, "m", target=rng.choice(["", "", "192.168.1.7"]))
-        if ctx.time_left() < 90:
-            break
+            for tag, data, src in fam:
+                if not in_model(data):
+                    continue
+                for ep in EPS:
+                    s = src or rng.choice(SRCS)
+                    pre = seq_prefix(rng, rng.choice([0, 0, 2, 4]))
+                    add(pre + [[ep, data.hex(), list(s), list(rng.choice(LOCALS) or []) or None, rng.choice(GAPS), tag]],
+                        target=rng.choice(["", "", "192.168.1.7", "fe80::1%3"]))
+    elif kind == "valid":
+        # valid traffic, sequences of 1..20 datagrams
+        for _ in range(n):
+            ops = []
+            for _ in range(rng.randrange(1, 21)):
+                d = valid_datagram(rng)
+                ops.append([rng.choice(EPS), d.hex(), list(rng.choice(SRCS)), list(rng.choice(LOCALS) or []) or None, rng.choice(GAPS), "valid"])
+            add(ops, target=rng.choice(["", "", "192.168.1.7", "fe80::1%3"]))
+    elif kind == "mutated":
+        # mutated stream inside valid traffic
+        for _ in range(n):
+            ops = seq_prefix(rng, rng.choice([0, 1, 3, 8]))
+            for _ in range(4):
+                d = mutate(rng, valid_datagram(rng))
+                if not in_model(d):
+                    continue
+                ops.append([rng.choice(EPS), d.hex(), list(rng.choice(SRCS)), list(rng.choice(LOCALS) or []) or None, rng.choice(GAPS), "mutated"])
+            add(ops, target=rng.choice(["", "", "192.168.1.7"]))
+            if ctx.time_left() < 90:
+                break
+    else:
+        raise ValueError(kind)
+    return cases
+
+
+def _worker(args) -> List[Case]:
+    import time
+    from pathlib import Path
+
+    from vk import core
+
+    tier, seed, kind, n, prefix = args
+    core.activate_repo()
+    ctx = Ctx("C02", tier, seed, Path("/tmp"), time.time() + 1200)
+    return gen_part(ctx, kind, n, prefix)
+
+
+def generate(ctx: Ctx) -> List[Case]:
+    cases: List[Case] = []
+    for i, rec in enumerate(CORPUS):
+        cases.append(run_recipe(ctx, rec, f"corpus{i}"))
+    if not ctx.thorough:
+        for kind, n in (("targeted", 1), ("valid", 1200), ("mutated", 1800)):
+            cases += gen_part(ctx, kind, n, kind[0])
+        return cases
+    import multiprocessing as mp
+
+    jobs = []
+    for kind, n, chunks in (("targeted", 2, 8), ("valid", 2500, 16), ("mutated", 2500, 24)):
+        for c in range(chunks):
+            jobs.append(("thorough", ctx.rng.randrange(1 << 30), kind, n, f"{kind[0]}{c}-"))
+    with mp.Pool(min(16, mp.cpu_count())) as pool:
+        for part in pool.imap(_worker, jobs):
+            cases += part
     return cases
 
 
